@@ -38,6 +38,10 @@ type c07Spec struct {
 	NSend int    `json:"nsend,omitempty"`
 	Churn string `json:"churn,omitempty"` // "" | add | drop | both: connections joining/leaving meanwhile
 	Raw   bool   `json:"raw,omitempty"`
+	// reopt: a queue-length option is set while a survey is outstanding (Variant: expiry | answer | queued | supersede)
+	Opt   string `json:"opt,omitempty"`   // readq | writeq
+	Order string `json:"order,omitempty"` // parked-first | set-first
+	Q0    int    `json:"q0"`              // ReadQLen the running survey was started with
 }
 
 func TestMain(m *testing.M) { hx.Main(m) }
@@ -140,9 +144,58 @@ func TestC07(t *testing.T) {
 		}
 		cases = append(cases, mon.CaseSpec{Name: "survey-with-header", Spec: sp})
 	}
+	// ---- a queue-length option set while a survey is outstanding, typically with a Recv parked on it ----
+	for i := 0; i < r.Pick(80, 2000); i++ {
+		sp := c07Spec{Mode: "reopt", NCtx: 1 + rnd.Intn(2), NPipes: 1 + rnd.Intn(3), NOps: i, Via: "self", Opt: "readq", Order: "parked-first", Q0: 128}
+		sp.Variant = []string{"expiry", "answer", "supersede", "expiry", "queued", "answer", "expiry", "supersede"}[i%8]
+		sp.New = []int{4, 1, 0, 256, 8, 2, 1000, 64, 16, 128}[rnd.Intn(10)]
+		if rnd.Intn(3) == 0 {
+			sp.Q0 = []int{0, 1, 4, 16}[rnd.Intn(4)]
+			if rnd.Intn(4) == 0 {
+				sp.New = sp.Q0 // set again to the value the running survey has
+			}
+		}
+		switch sp.Variant {
+		case "expiry":
+			sp.T1 = 80 + rnd.Intn(121)
+		default:
+			sp.T1 = -(i / 8 % 2) // one hour, or 0 = no limit
+		}
+		if (i/8)%5 == 4 {
+			sp.Order = "set-first"
+		}
+		switch (i / 8) % 6 {
+		case 2:
+			sp.Via = []string{"socket", "other"}[rnd.Intn(2)]
+		case 3:
+			sp.Opt = "writeq"
+		case 5:
+			sp.Raw, sp.NPipes = true, 1+rnd.Intn(3)
+			if rnd.Intn(3) == 0 {
+				sp.Opt = "writeq"
+			}
+		}
+		name := "queue-option-mid-survey"
+		if sp.Raw {
+			name = "queue-option-mid-survey-raw"
+		}
+		cases = append(cases, mon.CaseSpec{Name: name, Spec: sp})
+	}
+	// ---- raw surveys sent in Messages obtained from RecvMsg (Message.Pipe names a connected respondent) ----
+	for i := 0; i < r.Pick(48, 1200); i++ {
+		sp := c07Spec{Mode: "rawmsg", NPipes: 2 + rnd.Intn(4), NOps: 3 + rnd.Intn(5)}
+		if i%4 == 3 {
+			sp.Tr, sp.NPipes = trs[rnd.Intn(len(trs))], 2+rnd.Intn(2)
+		}
+		cases = append(cases, mon.CaseSpec{Name: "raw-survey-in-received-message", Spec: sp})
+	}
 	r.Run(cases, func(c *mon.Case) {
 		sp := c.Spec.(c07Spec)
 		switch sp.Mode {
+		case "reopt":
+			c07ReOpt(c, sp)
+		case "rawmsg":
+			c07RawMsg(c, sp)
 		case "hdr":
 			c07Hdr(c, sp)
 		case "retime":
